@@ -2,7 +2,7 @@
    Print Assumptions. *)
 From Coq Require Import ZArith QArith List Bool.
 From Centro Require Import Base.VecC13 Model.Circle Model.CircleVec Model.Feret Model.HullFill Spec.MecSpec Spec.ChrystalHyp Spec.FeretSpec Spec.FeretLower Spec.FillSpec
-  Proofs.MecProofs Proofs.CircleProofs Proofs.ChrystalFull Proofs.ChrystalHull Spec.HullSpec Proofs.CircleVecProofs Proofs.CircleVecStep Proofs.FeretProofs Proofs.FeretLowerProofs Proofs.SweepProofs Spec.CalipersHyp Proofs.CalipersMax Proofs.CalipersMin Proofs.FillProofs Proofs.FillEdgeProofs Proofs.FillModelProofs.
+  Proofs.MecProofs Proofs.CircleProofs Proofs.ChrystalFull Proofs.ChrystalHull Spec.HullSpec Proofs.CircleVecProofs Proofs.CircleVecStep Proofs.FeretProofs Proofs.FeretLowerProofs Proofs.SweepProofs Spec.CalipersHyp Spec.FeretBrute Proofs.CalipersMax Proofs.CalipersMin Proofs.CalipersFull Proofs.SweepFloat Proofs.FillProofs Proofs.FillEdgeProofs Proofs.FillModelProofs.
 
 (* Full.  Soundness of the certificate checker that is run on the exact circle reconstructed from
    the implementation's output: the circle contains every pixel centre of S and no circle
@@ -168,6 +168,21 @@ Theorem C14_sweep_advance_test_exact : forall n1 n2 den : Z, (0 < den)%Z ->
 Proof. exact advance_test_exact. Qed.
 Print Assumptions C14_sweep_advance_test_exact.
 
+(* Full, relative to an abstract model of binary64 rounding.  For EVERY rounding operator that is
+   monotone and has relative error at most 2^-53 on non-negative arguments (round-to-nearest
+   division of doubles without underflow is one), the code's comparison of the two rounded quotients
+   fl(n1/den) <= fl(n2/den) is the integer comparison n1 <= n2 that the model performs, whenever
+   the numerators (squared cross products, exact in double arithmetic) are below 2^52.  Trusted, not
+   proved: that IEEE-754 division satisfies the two hypotheses. *)
+Theorem C14_sweep_float_compare_exact : forall rnd : Q -> Q,
+  (forall x y, (x <= y)%Q -> (rnd x <= rnd y)%Q) ->
+  (forall x, (0 <= x)%Q -> (x * (1 - eps) <= rnd x)%Q /\ (rnd x <= x * (1 + eps))%Q) ->
+  forall n1 n2 den : Z,
+    (0 <= n1 < 4503599627370496)%Z -> (0 <= n2 < 4503599627370496)%Z -> (0 < den)%Z ->
+    ((rnd (inject_Z n1 / inject_Z den) <= rnd (inject_Z n2 / inject_Z den))%Q <-> (n1 <= n2)%Z).
+Proof. exact float_compare_exact. Qed.
+Print Assumptions C14_sweep_float_compare_exact.
+
 (* Full (calipers = brute force, maximum).  For every strictly convex vertex cycle, in either
    orientation and from any starting vertex (strict_convex_ok: every other vertex strictly on one
    side of every edge), the maximum reported by the antipodal sweep as written IS the largest
@@ -198,23 +213,29 @@ Theorem C14_calipers_min_candidates_are_widths : forall h ps v a k,
 Proof. exact min_candidates_are_widths. Qed.
 Print Assumptions C14_calipers_min_candidates_are_widths.
 
-(* Partial (calipers = brute force).  Proved about the executable model of the antipodal sweep, for
-   every vertex list: it terminates (above), it only records pairs of valid, distinct hull indices,
-   and so the maximum it reports never exceeds the largest pairwise distance (for lists that are not
-   strictly convex; the equality for strictly convex cycles is C14_calipers_max_eq_bruteforce).
-   Missing for the MINIMUM: every_edge_has_candidate (for EVERY edge a -> a+1 some vertex v has both
-   a and a+1 among its recorded antipodes: each column step of the staircase gives it for
-   a0 <= a <= n-2, each row step for a < a0 because the path ends in a row >= a0, the pairs
-   (a0, n-1), (0, a0) for the closing edge) and the fold/qmin bookkeeping that turns it, together
-   with C14_calipers_min_candidates_are_widths, into equality with the brute-force minimum.
-   Instead, on every run the model's maximum and minimum are compared with brute force
-   on the same vertex list (any disagreement is reported as a refutation; none in 30 000+ calls),
-   and the implementation's values are certified against the object's full pixel set by the
-   verified checkers max_d2 / feret_min_ok / feret_lower_ok. *)
-Theorem C14_calipers_eq_bruteforce_partial : forall h mx mn,
-  sweep h = Some (mx, mn) -> (mx <= max_d2 h)%Z.
-Proof. exact sweep_max_sound. Qed.
-Print Assumptions C14_calipers_eq_bruteforce_partial.
+(* Full (calipers = brute force).  For every strictly convex vertex cycle, either orientation, any
+   starting vertex: the antipodal sweep as written, with the code's construction of the minimum
+   (symmetric closure of the recorded pairs, the extra index `count` for vertex 0, "second antipode
+   is one less than its successor"), returns exactly the brute-force values - the largest pairwise
+   squared distance, and (as a rational) the smallest over all edges of the largest squared
+   distance of a vertex to the edge's line.  Ingredients: no_valley and local_max_global (Cramer's
+   rule in a vertex cone), diameter_antipodal_1/2, the staircase lemmas (row / column / a0 <= q,
+   loop_anti: every recorded pair is antipodal, loop_structure: one column step per column, one row
+   step per row, last row >= a0), every_edge_has_candidate, candidates_are_widths, and the qmin
+   fold calculus.  (The three lemmas named missing in round 2 correspond to diameter_antipodal_1/2,
+   farthest_recorded + recorded_antipodal + every_edge_has_candidate, and candidates_are_widths.) *)
+Theorem C14_calipers_eq_bruteforce : forall h mx mq,
+  strict_convex_ok h = true -> sweep h = Some (mx, mq) ->
+  mx = max_d2 h /\
+  exists bq, bf_min h = Some bq /\ (0 < snd mq)%Z /\ (0 < snd bq)%Z /\ (fst mq * snd bq = fst bq * snd mq)%Z.
+Proof. exact calipers_eq_bruteforce. Qed.
+Print Assumptions C14_calipers_eq_bruteforce.
+
+(* Full.  One- and two-vertex hulls (and the empty one): the sweep is not entered; the maximum is the
+   pairwise maximum and the minimum is 0. *)
+Theorem C14_calipers_small_hulls : forall h, (length h <= 2)%nat -> sweep h = Some (max_d2 h, (0, 1)%Z).
+Proof. exact calipers_small. Qed.
+Print Assumptions C14_calipers_small_hulls.
 
 (* Full.  Soundness of the fill checker run on the implementation's output: the rows are pairwise
    distinct and are exactly the lattice points (i,j) inside or on the polygon H of some object,
